@@ -4,6 +4,8 @@
 //!   with `SS.Model.Scalars` through the case files.
 //! S (direct search): the property's own oracles on the implementation (independent big-number
 //!   reference for integers, documented literal tables, the `base64` crate for !!binary).
+//!    Also: the documented Option null table (tags none / !!str / !!null / !!binary x styles x every Option target) and the
+//!    untyped integer inference against the exact 64-bit reference.
 use crate::coq;
 use crate::ctx::Ctx;
 use crate::util;
